@@ -84,7 +84,7 @@ def run(ctx):
         port = "listening_port" if side == "ServerConfigBuilder" else "0"
         ctx.check("C20-R1", "%s::with_bind_config v6" % side, len(v6) == 1 and re.match(r"^return %s::with_bind_address_v6\(self,SocketAddrV6::new\(\(IpBindConfig::into_ip\(ip_bind_config\) as V6\)\.0,%s,0,0\),IpBindConfig::into_dual_stack_config\(ip_bind_config\)\)$" % (side, port), v6[0]) is not None,
                   "%s::with_bind_config (v6) does not pass (ip, port, dual-stack mode of the preset): %s" % (side, v6), where(f))
-        ctx.check("C20-R1", "%s::with_bind_config v4" % side, len(v4) == 1 and re.match(r"^return %s::with_bind_address\(self,SocketAddr::new\(.*\(IpBindConfig::into_ip\(ip_bind_config\) as V4\)\.0\)?,%s\)\)$" % (side, port), v4[0]) is not None,
+        ctx.check("C20-R1", "%s::with_bind_config v4" % side, len(v4) == 1 and re.match(r"^return %s::with_bind_address\(self,(SocketAddr::new\(.*|SocketAddr::V4\(SocketAddrV4::new\()\(IpBindConfig::into_ip\(ip_bind_config\) as V4\)\.0\)?,%s\)\)?\)$" % (side, port), v4[0]) is not None,
                   "%s::with_bind_config (v4) changed: %s" % (side, v4), where(f))
         f = A.fn(C + side + "::with_bind_address_v6")
         sg = [path_sig(p)[1] for p in nonpanic(walk(f))]
@@ -166,7 +166,7 @@ def run(ctx):
     NATIVE = "build_default_tls_config(Arc::new(build_native_cert_store()),Option::None)"
     DNS = "(<Arc<T> as Default>::default() as std::sync::Arc<dyn wtransport::config::DnsResolver + std::marker::Send + std::marker::Sync>)"
     flow = {
-        "ServerConfigBuilder::with_bind_address": "return ServerConfigBuilder(WantsIdentity(<BindAddressConfig as From<SocketAddr>>::from(address)))",
+        "ServerConfigBuilder::with_bind_address": ("return ServerConfigBuilder(WantsIdentity(<BindAddressConfig as From<SocketAddr>>::from(address)))", "return ServerConfigBuilder(WantsIdentity(address))"),
         "ServerConfigBuilder::with_bind_socket": "return ServerConfigBuilder(WantsIdentity(BindAddressConfig::Socket(socket)))",
         "ServerConfigBuilder::with_identity": "return ServerConfigBuilder::with(self,build_default_tls_config(identity),%s,%s)" % (DEF_E, DEF_T),
         "ServerConfigBuilder::with_custom_tls": "return ServerConfigBuilder::with(self,tls_config,%s,%s)" % (DEF_E, DEF_T),
@@ -174,7 +174,7 @@ def run(ctx):
         "ServerConfigBuilder::with_custom_tls_and_transport": "return ServerConfigBuilder::with(self,tls_config,%s,quic_transport_config)" % DEF_E,
         "ServerConfigBuilder::with": "return ServerConfigBuilder(WantsTransportConfigServer(self.0.bind_address_config,tls_config,endpoint_config,transport_config,1))",
         "ServerConfigBuilder::build_with_quic_config": "return ServerConfig(self.0.bind_address_config,%s,quic_config)" % DEF_E,
-        "ClientConfigBuilder::with_bind_address": "return ClientConfigBuilder(WantsRootStore(<BindAddressConfig as From<SocketAddr>>::from(address)))",
+        "ClientConfigBuilder::with_bind_address": ("return ClientConfigBuilder(WantsRootStore(<BindAddressConfig as From<SocketAddr>>::from(address)))", "return ClientConfigBuilder(WantsRootStore(address))"),
         "ClientConfigBuilder::with_bind_socket": "return ClientConfigBuilder(WantsRootStore(BindAddressConfig::Socket(socket)))",
         "ClientConfigBuilder::with_native_certs": "return ClientConfigBuilder::with(self,%s,%s,%s)" % (NATIVE, DEF_E, DEF_T),
         "ClientConfigBuilder::with_custom_tls": "return ClientConfigBuilder::with(self,tls_config,%s,%s)" % (DEF_E, DEF_T),
@@ -187,7 +187,8 @@ def run(ctx):
         f = A.fn(C + nm)
         with depth_limit(10):
             sg = [path_sig(p)[1] for p in nonpanic(walk(f))]
-        ctx.check("C20-R6", nm, sg == [want], "%s does not pass its arguments on unchanged: %s, expected %s" % (nm, sg, want), where(f), key="builder flow|%s" % nm)
+        wants = want if isinstance(want, tuple) else (want,)   # (`T::from(x)` and `x.into()` are one conversion, spelled twice)
+        ctx.check("C20-R6", nm, len(sg) == 1 and sg[0] in wants, "%s does not pass its arguments on unchanged: %s, expected %s" % (nm, sg, wants[0]), where(f), key="builder flow|%s" % nm)
     f = A.fn(C + "ClientConfigBuilder::dns_resolver")
     ps = nonpanic(walk(f))
     ev = [e for p in ps for e in event_strs(p) if e.startswith("store ")]
